@@ -192,9 +192,10 @@ def _ctx_with(eng, fr, st, name, args, rtypes, ins):
     return [(st, TupleV([ctx, cancel]))]
 
 
-@model("context.Background", "context.TODO")
+@model("context.Background", "context.TODO", "context.WithoutCancel")
 def _ctx_background(eng, fr, st, name, args, rtypes, ins):
-    """a root context: never cancelled, no deadline, derived from nobody's context (`detached(c)` in contracts)"""
+    """a root context: never cancelled, no deadline, derived from nobody's context (`detached(c)` in contracts); WithoutCancel(parent) keeps
+    the parent's values but not its cancellation, so it is detached too"""
     ctx = IfaceV(z3.Const(fresh_name("ctxroot"), Ref))
     st.assume(ctx.ref != NIL)
     st.assume(uf("ctx.detached", [Ref], z3.BoolSort())(ctx.ref))
